@@ -406,7 +406,9 @@ def shared_pelt_exactness(ctx):
 
 def _driver_summary(name):
     def h(ex, func, args, kwargs, so, node):
-        bound = _bind(func, args, kwargs)
+        from .common import bind_call
+
+        bound = bind_call(ex, func, args, kwargs)
         ex.emit("driver_call", node, driver=func.qualname, bound=bound)
         key = func.qualname + "(" + ",".join(f"{k}={valkey(v)}" for k, v in bound.items()) + ")"
         outs = _n_outputs(func)
